@@ -64,6 +64,53 @@ theorem C08_summary_partition_independent (minInt : Int) (parts : List (List IVa
     storeSummary minInt parts = summarise minInt parts.flatten := by
   exact storeSummary_eq minInt parts
 
+theorem optMin_comm (a b : Option Int) : optMin a b = optMin b a := by
+  cases a <;> cases b <;> simp [optMin, Int.min_comm]
+theorem optMax_comm (a b : Option Int) : optMax a b = optMax b a := by
+  cases a <;> cases b <;> simp [optMax, Int.max_comm]
+
+/-- merging partition summaries is commutative, associative and idempotent … -/
+theorem C08_merge_laws (a b c : Summary) :
+    Summary.merge a b = Summary.merge b a ∧
+    Summary.merge (Summary.merge a b) c = Summary.merge a (Summary.merge b c) ∧
+    Summary.merge a a = a ∧ Summary.merge Summary.empty a = a := by
+  refine ⟨?_, ?_, ?_, ?_⟩
+  · simp [Summary.merge, optMin_comm a.minV, optMax_comm a.maxV, Nat.max_comm]
+  · simp [Summary.merge, optMin_assoc, optMax_assoc, Nat.max_assoc]
+  · cases a with | mk n lo hi => cases lo <;> cases hi <;> simp [Summary.merge, optMin, optMax]
+  · cases a with | mk n lo hi => cases lo <;> cases hi <;> simp [Summary.merge, Summary.empty, optMin, optMax]
+
+theorem foldl_merge_perm (l₁ l₂ : List Summary) (h : l₁.Perm l₂) (s : Summary) :
+    l₁.foldl Summary.merge s = l₂.foldl Summary.merge s := by
+  induction h generalizing s with
+  | nil => rfl
+  | cons x _ ih => exact ih _
+  | swap x y l =>
+    simp only [List.foldl_cons]
+    rw [(C08_merge_laws s y x).2.1, (C08_merge_laws s x y).2.1, (C08_merge_laws y x s).1]
+  | trans _ _ ih1 ih2 => rw [ih1, ih2]
+
+/-- … so the stored summary does not depend on the order in which finalise loads the partition
+    summaries (nor, with `C08_summary_partition_independent`, on the order of the partitions) -/
+theorem C08_summary_order_independent (minInt : Int) (parts parts' : List (List IVal))
+    (h : parts.Perm parts') : storeSummary minInt parts = storeSummary minInt parts' := by
+  unfold storeSummary
+  exact foldl_merge_perm _ _ (h.map _) _
+
+/-- adjacent ranges read back as the range that spans them: nothing lost or repeated at the seam,
+    wherever it falls relative to chunk and partition boundaries -/
+theorem C08_iter_values_concat (maxBytes : Nat) (parts : List (List (α × Nat))) (hne : ∀ p ∈ parts, p ≠ [])
+    (a b c : Nat) (hab : a < b) (hbc : b < c) (hc : c ≤ (parts.map List.length).sum) :
+    iterValues (writeStore maxBytes parts) a b ++ iterValues (writeStore maxBytes parts) b c =
+      iterValues (writeStore maxBytes parts) a c := by
+  rw [C08_iter_values maxBytes parts hne a b hab (by omega), C08_iter_values maxBytes parts hne b c hbc hc,
+    C08_iter_values maxBytes parts hne a c (by omega) hc]
+  generalize (parts.map fun p => p.map (·.1)).flatten = l
+  have e : c - a = (b - a) + (c - b) := by omega
+  rw [e, List.take_add, List.drop_drop]
+  congr 3
+  omega
+
 example : (writePart 10 [(1, 4), (2, 4), (3, 4), (4, 4), (5, 4)]).chunks = [[1, 2, 3], [4, 5]] := by decide
 example : iterValues (writeStore 10 [[(1, 4), (2, 4), (3, 4), (4, 4)], [(5, 20), (6, 1)]]) 2 5 = [3, 4, 5] := by decide
 example : storeSummary (-10) [[some ([3, -20, 7], 3)], [none, some ([1], 1)]] = ⟨3, some 1, some 7⟩ := by decide
